@@ -121,11 +121,66 @@ type Result struct {
 	Solver       smt.Stats
 	Wall         time.Duration
 	Samples      []string
+	CacheHits    int
 	Dropped      int // goroutines dropped
 	Exhausted    bool
 }
 
+// modelCache is a small per-worker cache of satisfying assignments reused to
+// answer feasibility questions without calling the solver.
+type modelCache struct {
+	ms []*term.Model
+	hits, misses int
+}
+
+func (mc *modelCache) add(m *term.Model) {
+	if m == nil {
+		return
+	}
+	if len(mc.ms) >= 24 {
+		copy(mc.ms, mc.ms[1:])
+		mc.ms = mc.ms[:len(mc.ms)-1]
+	}
+	mc.ms = append(mc.ms, m.Clone())
+}
+
+func (mc *modelCache) find(q []*term.T) *term.Model {
+	for i := len(mc.ms) - 1; i >= 0; i-- {
+		m := mc.ms[i].Clone()
+		ev := term.NewEvaluator(m)
+		ok := true
+		// check the newest constraint first (most likely to fail)
+		for j := len(q) - 1; j >= 0; j-- {
+			if ev.Eval(q[j]) == 0 {
+				ok = false
+				break
+			}
+		}
+		if ok {
+			mc.hits++
+			return m
+		}
+	}
+	mc.misses++
+	return nil
+}
+
+// check is the solver entry point for feasibility queries (with model cache).
+func (ex *Exec) check(q []*term.T, wantModel bool) (smt.Result, *term.Model) {
+	if ex.mcache != nil {
+		if m := ex.mcache.find(q); m != nil {
+			return smt.Sat, m
+		}
+	}
+	r, m := ex.solver.Check(q, wantModel)
+	if r == smt.Sat && ex.mcache != nil {
+		ex.mcache.add(m)
+	}
+	return r, m
+}
+
 type Exec struct {
+	mcache    *modelCache
 	P         *Program
 	cfg       *Config
 	solver    *smt.Portfolio
@@ -336,7 +391,7 @@ func (ex *Exec) Branch(c *term.T) bool {
 		other = c
 	}
 	q := append(append([]*term.T(nil), ex.pc...), other)
-	r, m := ex.solver.Check(q, true)
+	r, m := ex.check(q, true)
 	if traceQ {
 		fmt.Printf("Q branch %-5s %s  @%s\n", r, other, ex.site())
 	}
@@ -404,7 +459,7 @@ func (ex *Exec) Assume(c *term.T) {
 		return
 	}
 	q := append(append([]*term.T(nil), ex.pc...), c)
-	r, m := ex.solver.Check(q, true)
+	r, m := ex.check(q, true)
 	switch r {
 	case smt.Sat:
 		ex.addPC(c)
@@ -517,7 +572,7 @@ func (ex *Exec) Assert(c *term.T, label string) {
 		ex.report(label, ex.repoSite(), "assertion violated: "+c.String(), ex.model.Clone())
 	} else {
 		q := append(append([]*term.T(nil), ex.pc...), term.BNot(c))
-		r, m := ex.solver.Check(q, true)
+		r, m := ex.check(q, true)
 		if traceQ {
 			fmt.Printf("Q assert %-5s %s  [%s]\n", r, c, label)
 		}
@@ -575,7 +630,7 @@ func Explore(p *Program, cfg *Config) *Result {
 func (e *Explorer) worker() {
 	kinds := e.cfg.Solvers
 	if len(kinds) == 0 {
-		kinds = []smt.Kind{smt.CVC5, smt.Z3, smt.CVC5Int}
+		kinds = []smt.Kind{smt.Z3New, smt.CVC5, smt.Z3, smt.CVC5Int}
 		if v := os.Getenv("VERIF_SOLVERS"); v != "" {
 			kinds = nil
 			for _, k := range strings.Split(v, ",") {
@@ -584,6 +639,12 @@ func (e *Explorer) worker() {
 		}
 	}
 	solver := smt.NewPortfolio(e.cfg.SolverMs, kinds...)
+	mc := &modelCache{}
+	defer func() {
+		e.mu.Lock()
+		e.res.CacheHits += mc.hits
+		e.mu.Unlock()
+	}()
 	defer func() {
 		st := solver.Stats()
 		e.mu.Lock()
@@ -610,7 +671,7 @@ func (e *Explorer) worker() {
 		e.busy++
 		e.mu.Unlock()
 
-		ex := e.runPath(solver, it)
+		ex := e.runPath(solver, mc, it)
 
 		e.mu.Lock()
 		e.busy--
@@ -667,8 +728,8 @@ func (e *Explorer) merge(ex *Exec) {
 	}
 }
 
-func (e *Explorer) runPath(solver *smt.Portfolio, it WorkItem) (ex *Exec) {
-	ex = &Exec{P: e.P, cfg: e.cfg, solver: solver, prefix: it.Prefix,
+func (e *Explorer) runPath(solver *smt.Portfolio, mc *modelCache, it WorkItem) (ex *Exec) {
+	ex = &Exec{mcache: mc, P: e.P, cfg: e.cfg, solver: solver, prefix: it.Prefix,
 		globals: map[*ssa.Global]*Value{}, initDone: map[*ssa.Package]bool{}, fresh: map[string]int{},
 		hits: map[string]int{}, proved: map[string]int{}, funcs: map[string]int64{}, facts: map[uint64][]fact{}}
 	ex.setModel(it.Model)
@@ -778,6 +839,13 @@ func (ex *Exec) renderValue(v Value) string {
 	case Iface:
 		if x.T == nil {
 			return "nil"
+		}
+		if t, ok := x.V.(*term.T); ok && t.W != 0 {
+			if _, signed, ok := intInfo(x.T); ok && signed {
+				v := ex.ev.Eval(t)
+				sh := 64 - uint(t.W)
+				return fmt.Sprintf("%d", int64(v<<sh)>>sh)
+			}
 		}
 		return ex.renderValue(x.V)
 	}
